@@ -22,7 +22,8 @@ func (server *GripServer) Submit(ctx context.Context, query *gripql.GraphQuery) 
 		return nil, err
 	}
 	compiler := graph.Compiler()
-	pipe, err := compiler.Compile(query.Query, nil)
+	//a later ResumeJob may read any mark of the stored rows
+	pipe, err := compiler.Compile(query.Query, &gdbi.CompileOptions{StoreMarks: true})
 	if err != nil {
 		return nil, err
 	}
